@@ -93,6 +93,24 @@ def inventory(chk, P, tier, dumped_files, units):
         site = "%s:%d" % (s["file"], s["line"])
         k = key_of(s)
         inst = "%s@%s:%d" % (s["name"], os.path.basename(s["file"]), s["line"]) if s["local"] else s["name"]
+        # a function-local static is initialised ONCE, by whoever calls the function first: if its initialiser reads per-call data (this,
+        # a parameter, another local of the function) the first caller's value is latched for the whole process, const or not
+        if s["local"] and s.get("init") is not None and not s.get("constinit") and s.get("func"):
+            fns = P.by_id.get(s["func"], [])
+            names = set()
+            for g in fns:
+                names |= {p_[0] for p_ in g.d.get("params", []) if p_[0]}
+                names |= {d["var"] for _, _, d in g.events(lambda q: q["k"] == "decl")}
+            names.discard(s["name"].split("::")[-1])
+            per_call = sorted({y[1] for y in sx_find(s["init"], lambda y: y[0] == "var" and y[1] in names)} | ({"this"} if sx_find(s["init"], lambda y: y == ["this"]) else set()))
+            if fns:
+                nlatch = chk.extra.setdefault("static_locals_with_dynamic_initialiser", 0) + 1
+                chk.extra["static_locals_with_dynamic_initialiser"] = nlatch
+                chk.judge(not per_call, "INVENTORY", inst + ":initialiser-reads-no-per-call-data", site,
+                          "function-local static `%s` is initialised from %s: the value computed for the first caller (its object, its arguments) is kept for every later caller in the process" %
+                          (s["name"].split("::")[-1], per_call))
+                if per_call:
+                    continue
         if s["const"] and not s["mutable_sub"]:
             counts["I"] += 1
             chk.ok("INVENTORY", inst + ":I", site, "immutable by type (%s)" % s["ty"][:60])
@@ -271,6 +289,8 @@ _CD = "SimTKmath/Geometry/src/CollisionDetectionAlgorithm.cpp"
 _AI = "SimTKmath/Integrators/src/AbstractIntegratorRep.cpp"
 _GF = "Simbody/src/GeneralForceSubsystem.cpp"
 MUTATIONS = [
+    dict(name="seeded (sub-agent): projection limit made a function-local static const", arm=True, file="SimTKmath/Integrators/src/AbstractIntegratorRep.cpp",
+         old="    const Real projectionLimit = ", new="    static const Real projectionLimit = ", expect="initialiser-reads-no-per-call-data"),
     dict(name="integrator keeps a static step counter", arm=True, file=_AI,
          old="bool AbstractIntegratorRep::takeOneStep(Real tMax, Real tReport)\n{\n    Real t1;",
          new="bool AbstractIntegratorRep::takeOneStep(Real tMax, Real tReport)\n{\n    static int stepsSoFar = 0; if (++stepsSoFar % 1000 == 0) currentStepSize *= Real(0.5);\n    Real t1;",
